@@ -64,7 +64,7 @@ static double outside_by(const std::vector<Vec2>& h, Vec2 q) {
 struct Ctx { const CaseId* c; const char* object; std::string history; };
 static void report(const Ctx& x, const char* query, const std::string& cls, const std::string& detail) {
     const CaseId& c = *x.c;
-    auto rotcls = [](int r) { return r < 4 ? "multiple_of_90" : "oblique"; };
+    auto rotcls = [](int r) { return (r < 4 || r == 6) ? "multiple_of_90" : r == 7 ? "near_multiple_of_90" : "oblique"; };
     R->violation(std::string("geom.") + query, cls,
                  {{"object", jstr(x.object)}, {"leaf", jstr(leaf_name(c.leaf))}, {"r1_rep", jstr(rep_name(c.s1.rep))}, {"r2_rep", jstr(rep_name(c.s2.rep))},
                   {"r1_rot", jstr(rotcls(c.s1.rot))}, {"r2_rot", jstr(rotcls(c.s2.rot))}, {"cached", jbool(!x.history.empty())}},
@@ -201,7 +201,8 @@ int main(int argc, char** argv) {
     }
     // ---- space: leaf x spec(mid->leaf) x spec(top->mid) x mid_extra
     std::vector<RefSpec> specs;
-    for (int rot = 0; rot < NROT; rot++) for (int refl = 0; refl < 2; refl++) for (int mag = 0; mag < 2; mag++) for (int org = 0; org < 2; org++) for (int rep = 0; rep < NREP; rep++) {
+    for (int rot = 0; rot < NROT_EXT; rot++) for (int refl = 0; refl < 2; refl++) for (int mag = 0; mag < 2; mag++) for (int org = 0; org < 2; org++) for (int rep = 0; rep < NREP; rep++) {
+        if (rot >= NROT && (mag || org)) continue;  // rotations -pi/2 and pi/2 + 8e-9: origin (0,0), magnification 1
         if (mag != (org ? 1 : 0)) continue;  // magnification tied to origin choice (both values still occur); the full product does not fit the thorough budget since the one-column/one-row lattices were added
         if (!T && (rot == 2 || rot == 3)) continue;   // quick: rotations {0, pi/2, 0.5, pi/4}
         if (!T && rep >= REP_REGULAR_1COL && rot != 0 && rot != 4) continue;  // quick: one-column / one-row lattices under rotations {0, 0.5}
